@@ -37,14 +37,26 @@ SubAll(subs, hs) == IF hs = <<>> THEN subs ELSE SubAll(Subscribe(subs, hs[1][1],
 RECURSIVE UnsubAll(_, _)
 UnsubAll(subs, hs) == IF hs = <<>> THEN subs ELSE UnsubAll(Unsubscribe(subs, hs[1][1], hs[1][2]), Tail(hs))
 
-\* nodes : function from node ids present to [kind, gen]
-AddNode(subs, nodes, kind, nid, g) ==
-    LET s1 == IF nid \in DOMAIN nodes THEN UnsubAll(subs, Handlers(nodes[nid].kind, nid, nodes[nid].gen))
-                                      ELSE subs
-    IN [subs |-> SubAll(s1, Handlers(kind, nid, g)),
-        nodes |-> [i \in DOMAIN nodes \cup {nid} |-> IF i = nid THEN [kind |-> kind, gen |-> g] ELSE nodes[i]]]
+\* nodes : function from node ids present to [kind, gen, extra]
+\*   extra: tx COB-IDs of additional SDO channels of a remote node (RemoteNode.add_sdo); their
+\*   response handlers are registered after the default channel's and removed with the node
+ExtraHandlers(nid, g, extra) == [i \in 1..Len(extra) |-> <<extra[i], <<1, nid, g, 10 + i>>>>]   \* role 10+k: k-th extra channel
+AllHandlers(n, nid) ==
+    IF n.kind = "remote"
+      THEN <<RemoteHandlers(nid, n.gen)[1]>> \o ExtraHandlers(nid, n.gen, n.extra)
+           \o SubSeq(RemoteHandlers(nid, n.gen), 2, 4)
+      ELSE LocalHandlers(nid, n.gen)
+AddNodeX(subs, nodes, kind, nid, g, extra) ==
+    LET s1 == IF nid \in DOMAIN nodes THEN UnsubAll(subs, AllHandlers(nodes[nid], nid)) ELSE subs
+        n == [kind |-> kind, gen |-> g, extra |-> extra]
+    IN [subs |-> SubAll(s1, AllHandlers(n, nid)),
+        nodes |-> [i \in DOMAIN nodes \cup {nid} |-> IF i = nid THEN n ELSE nodes[i]]]
+AddNode(subs, nodes, kind, nid, g) == AddNodeX(subs, nodes, kind, nid, g, <<>>)
+AddSdo(subs, nodes, nid, tx) ==
+    [subs |-> Subscribe(subs, tx, <<1, nid, nodes[nid].gen, 11 + Len(nodes[nid].extra)>>),
+     nodes |-> [nodes EXCEPT ![nid].extra = Append(nodes[nid].extra, tx)]]
 RemoveNode(subs, nodes, nid) ==
-    [subs |-> UnsubAll(subs, Handlers(nodes[nid].kind, nid, nodes[nid].gen)),
+    [subs |-> UnsubAll(subs, AllHandlers(nodes[nid], nid)),
      nodes |-> [i \in DOMAIN nodes \ {nid} |-> nodes[i]]]
 
 \* node scanner: predefined connection set services, 11-bit identifiers only
